@@ -225,7 +225,7 @@ def needed(A, v):
                 return True
     if v["dims"] == [v["name"]]:
         for w in A["vars"].values():
-            if w["name"] != v["name"] and v["name"] in w["dims"]:
+            if w["name"] != v["name"] and (v["name"] in w["dims"] or ("compress", v["name"]) in w["refs"]):
                 return True
     return False
 
@@ -355,6 +355,12 @@ class Decoder:
         if token in v["dims"]:
             if token in A["vars"] and A["vars"][token]["dims"] == [token]:
                 return "c:" + self.hash(token)[1]
+            if A["dims"][token][0] == 1:
+                # a size-one dimension without coordinate variable: identified by its only 1-d auxiliary coordinate
+                cands = [t for t in dict.fromkeys(str(v["attrs"].get("coordinates", "")).split())
+                         if t in A["vars"] and A["vars"][t]["dims"] == [token]]
+                if len(cands) == 1:
+                    return "c:" + self.hash(cands[0])[1]
             return f"n:{A['dims'][token][0]}"
         if token in A["vars"] and A["vars"][token]["dims"] == []:
             return "c:" + self.hash(token)[1]
@@ -493,16 +499,19 @@ def abstract_field(f, omit_props=()):
     out["formula_terms"] = fts
     # axis identities for cell methods
     def axis_id(a):
+        """The identities under which a CF file may present this axis (any one of them)."""
         if a not in axes:
-            return a if a == "area" else "?:" + str(a)
+            return [a if a == "area" else "?:" + str(a)]
         for k in dimc:
             if tuple(da[k]) == (a,):
-                return "c:" + key_hash[k]
+                return ["c:" + key_hash[k]]
         if axes[a].get_size() == 1:
-            ks = [k for k in auxc if tuple(da[k]) == (a,)]
-            if len(ks) == 1 and a not in data_axes:
-                return "c:" + key_hash[ks[0]]
-        return f"n:{axes[a].get_size()}"
+            # a size-one axis without dimension coordinate: a scalar coordinate variable (any of its 1-d auxiliary
+            # coordinates), or a size-one dimension (identified by its only auxiliary coordinate, if it has just one)
+            ks = [str(key_hash[k]) for k in auxc if tuple(da[k]) == (a,)]
+            if ks:
+                return sorted({"c:" + h for h in ks}) + (["n:1"] if len(ks) > 1 else [])
+        return [f"n:{axes[a].get_size()}"]
     cms = []
     if is_field:
         for k, cm in f.cell_methods(todict=True).items():
@@ -522,7 +531,7 @@ def abstract_field(f, omit_props=()):
                     parts.append("(" + par[0] + ")")
                 else:
                     parts.append("(" + " ".join(par) + ")")
-            cms.append([sorted(axis_id(a) for a in cm.get_axes(())), cm.get_method(None), " ".join(parts)])
+            cms.append([[axis_id(a) for a in cm.get_axes(())], cm.get_method(None), " ".join(parts)])
     out["cell_methods"] = cms
     out["ncvar"] = f.nc_get_variable(None)
     return out
@@ -606,6 +615,19 @@ def compare(orig, dec):
         return f"formula terms differ: {orig['formula_terms']} vs {dec['formula_terms']}"
     ocm = [[a, m, _norm_quals(q)] for a, m, q in orig["cell_methods"]]
     dcm = [[a, m, _norm_quals(q)] for a, m, q in dec["cell_methods"]]
-    if ocm != dcm:
+    if len(ocm) != len(dcm) or any(o[1:] != d[1:] or not _axes_match(o[0], d[0]) for o, d in zip(ocm, dcm)):
         return f"cell methods differ: {ocm} vs {dcm}"
     return None
+
+
+def _axes_match(accept, got):
+    """Every axis of the original cell method (a list of acceptable identities each) is one of the decoded
+    identities, one to one."""
+    if len(accept) != len(got):
+        return False
+    if not accept:
+        return True
+    for i, g in enumerate(got):
+        if g in accept[0] and _axes_match(accept[1:], got[:i] + got[i + 1:]):
+            return True
+    return False
